@@ -8,7 +8,7 @@
     Clauses of one family are grouped in one theorem (one [Print Assumptions] per theorem). *)
 From Coq Require Import Reals ZArith List.
 From Coquelicot Require Import Coquelicot.
-From LP Require Import Num NumR C07_Model C07_Proofs_Cont C07_Proofs_ErfBound C07_Proofs_Disc C07_Proofs_Chi C07_Proofs_Ex.
+From LP Require Import Num NumR C07_Model C07_Proofs_Cont C07_Proofs_ErfBound C07_Proofs_Disc C07_Proofs_Chi C07_Proofs_Ex C07_Proofs_Kde.
 Import ListNotations.
 Local Open Scope R_scope.
 
@@ -214,6 +214,14 @@ Proof.
           (conj (binned_size_mismatch pred obs bg) (binned_empty_background pred obs))).
 Qed.
 Print Assumptions C07_likelihood_poisson_binned.
+(** a bin in which nothing was observed contributes -(s+b) to the log-likelihood and the factor e^-(s+b), however the mean is split
+    into signal and background: a bin without predicted signal (s = 0) still contributes -b, a factor < 1 for b > 0 *)
+Theorem C07_likelihood_bin_without_events s b :
+  log_likelihood_poisson ROps s 0 b = - (s + b) /\ likelihood_poisson ROps s 0 b = exp (- (s + b)) /\
+  (0 <= b -> log_likelihood_poisson ROps 0 0 b = - b /\ likelihood_poisson ROps 0 0 b = exp (- b) /\
+             (0 < b -> likelihood_poisson ROps 0 0 b < 1)).
+Proof. exact (conj (log_likelihood_no_events s b) (conj (likelihood_no_events s b) (binned_no_signal_no_events_bin b))). Qed.
+Print Assumptions C07_likelihood_bin_without_events.
 
 (** ** Chi-square (dof >= 1e-6; smaller dof is the dof-0 convention) *)
 Theorem C07_chi2_pdf gammaLn x dof :
@@ -303,3 +311,25 @@ Theorem C07_kde_table_partial data xmin xmax bw :
   exists t, perform_kde ROps PI data xmin xmax bw = Ok t /\ length t = 150%nat /\ List.Forall (fun q => 0 <= snd q) t.
 Proof. exact (perform_kde_ok data xmin xmax bw). Qed.
 Print Assumptions C07_kde_table_partial.
+
+(** the automatic (rule-of-thumb) bandwidth, bw = 0 or omitted: sqrt(V) (4/3/N)^(1/5) with the two-pass weighted variance
+    V = sum w (x - mean)^2 / W.  For non-negative weights with positive sum V >= 0, the bandwidth is >= 0, and > 0 as soon as one
+    positively weighted sample differs from the weighted mean; shifting every sample by a common offset c (a window far from the
+    origin) leaves it unchanged; a non-zero manual bandwidth is used as given.
+    ([wsum_of data 0] is the weight sum Perform_KDE computes, [shift c data] adds c to every sample value.) *)
+Theorem C07_kde_automatic_bandwidth data :
+  (List.Forall (fun d => 0 <= snd d) data -> 0 < wsum_of data 0 ->
+     let wsum := wsum_of data 0 in
+     0 <= wvar data wsum (wmean_sum data 0 / wsum) 0 /\
+     0 <= kde_bandwidth ROps data wsum 0 /\
+     (List.Exists (fun d => 0 < snd d /\ fst d <> wmean_sum data 0 / wsum) data -> 0 < kde_bandwidth ROps data wsum 0)) /\
+  (forall c, wsum_of data 0 <> 0 ->
+     wsum_of (shift c data) 0 = wsum_of data 0 /\
+     kde_bandwidth ROps (shift c data) (wsum_of data 0) 0 = kde_bandwidth ROps data (wsum_of data 0) 0) /\
+  (forall wsum bw, bw <> 0 -> kde_bandwidth ROps data wsum bw = bw).
+Proof.
+  exact (conj (kde_bandwidth_auto_nonneg data)
+          (conj (fun c H => conj (wsum_of_shift c data 0) (kde_bandwidth_shift c data H))
+                (fun wsum bw => kde_bandwidth_manual data wsum bw))).
+Qed.
+Print Assumptions C07_kde_automatic_bandwidth.
